@@ -9,14 +9,18 @@ Sig(e) == SetOf(e.sigma)
 
 (* counterexample(A, B): e.none = TRUE, or e.w with the two reported weights *)
 CexOK(e) ==
-  IF e.none THEN Equiv(e.A, e.B, Sig(e))
+  IF e.none THEN Equiv(e.A, e.B, Alphabet(e.A) \cup Alphabet(e.B))
   ELSE /\ DistinguishedBy(e.A, e.B, e.w)
        /\ REq(AWeight("Rat", e.A, e.w), e.va)
        /\ REq(AWeight("Rat", e.B, e.w), e.vb)
 (* A == B and hash(A) == hash(B) *)
-EqOK(e) == (e.eq <=> Equiv(e.A, e.B, Sig(e))) /\ (e.eq => e.hasheq)
+EqOK(e) == (e.eq <=> Equiv(e.A, e.B, Alphabet(e.A) \cup Alphabet(e.B))) /\ (e.eq => e.hasheq)
 (* minimisation: dimension = Hankel rank, weights preserved (recorded per string) *)
-MinDimOK(e) == e.dim = HankelRank(e.A, Sig(e))
+(* the Hankel block itself for automata with up to 3 states (and there it must agree with the span form), the span *)
+(* form beyond (the block has |Sigma|^(n-1) rows)                                                                  *)
+RankOf(A) == IF ~NoEpsArcs(A) \/ A.n <= 3 THEN HankelRank(A, Alphabet(A)) ELSE HankelRankFast(A)
+RankFormsAgree(A) == (NoEpsArcs(A) /\ A.n <= 3) => HankelRank(A, Alphabet(A)) = HankelRankFast(A)
+MinDimOK(e) == e.dim = RankOf(e.A)
 MinWeightsOK(e) == \A i \in DOMAIN e.vals : REq(AWeight("Rat", e.A, e.vals[i][1]), e.vals[i][2])
 
 Failed(e) ==
@@ -24,6 +28,7 @@ Failed(e) ==
   ELSE CASE e.op = "cex" -> IF CexOK(e) THEN {} ELSE {"counterexample"}
          [] e.op = "eq" -> IF EqOK(e) THEN {} ELSE {"equality"}
          [] e.op = "min" -> (IF MinDimOK(e) THEN {} ELSE {"mindim"}) \cup (IF MinWeightsOK(e) THEN {} ELSE {"minweights"})
+                            \cup (IF RankFormsAgree(e.A) THEN {} ELSE {"ORACLE"})
 
 VARIABLES sh, l
 Init == sh \in 0 .. (NSh - 1) /\ l = sh + 1
